@@ -11,7 +11,7 @@ BA = dict(
     recs={'BitArrayT': r'ffsm2::detail::BitArrayT<[1-9]\d*>$'},
     array_max={'BitArrayT._storage': 32},
     consts={'BitArrayT__NCapacity': ('range', 1, 255)},
-    ghost=['uint8_t g_q;   /* arbitrary bit index  */', 'uint8_t g_u;   /* arbitrary unit index */'],
+    ghost=['uint8_t g_q;   /* arbitrary bit index  */', 'uint8_t g_u;   /* unit of g_q (harness) */', 'uint8_t g_last; /* last unit (harness) */'],
     props=['C20', 'C18'],
 )
 SELF = fresh('self')
@@ -21,6 +21,8 @@ B = lambda: bit('self->_storage', 'g_q')
 OLDB = '((__CPROVER_old(self->_storage[g_q >> 3]) >> (g_q & 7)) & 1u)'
 # representation invariant needed by empty(): padding bits of the last unit are zero
 PAD0 = '(BitArrayT__CAPACITY % 8 == 0 || (self->_storage[BitArrayT__UNIT_COUNT - 1] >> (BitArrayT__CAPACITY % 8)) == 0)'
+
+GH = ['g_u = g_q >> 3;', 'g_last = BitArrayT__UNIT_COUNT - 1;']
 
 def ba(id_, target, contracts, **kw):
     u = dict(BA); u.update(id='c20.bitarray.' + id_, target=dict(cls=r'BitArrayT<[1-9]\d*>$', **target), contracts=contracts); u.update(kw)
@@ -44,4 +46,108 @@ UNITS = [
             requires=[SELF, 'index < BitArrayT__CAPACITY'],
             assigns=[],
             ensures=[('C20', '__CPROVER_return_value == (%s != 0)' % bit('self->_storage', 'index'))])}),
+
+    # ---- whole-array operations: byte loops closed by loop contracts (unbounded in CAPACITY)
+    ba('set_all', dict(name='set', nparams=0), {
+        'BitArrayT__set__0': dict(
+            requires=[SELF, INQ],
+            assigns=['__CPROVER_object_whole(self)'],
+            ensures=[('C20', '%s == 1u' % B()),
+                     ('C20', PAD0)],
+            loops={0: dict(assigns=['__k0', '__CPROVER_object_whole(self)'],
+                           invariant=['__k0 <= BitArrayT__UNIT_COUNT',
+                                      implies('g_u < __k0', 'self->_storage[g_u] == 255'),
+                                      ],
+                           decreases='BitArrayT__UNIT_COUNT - __k0')})},
+        harness_pre=GH),
+    ba('clear_all', dict(name='clear', nparams=0), {
+        'BitArrayT__clear__0': dict(
+            requires=[SELF, INQ],
+            assigns=['__CPROVER_object_whole(self)'],
+            ensures=[('C20', '%s == 0u' % B()),
+                     ('C20', PAD0)],
+            loops={0: dict(assigns=['__k0', '__CPROVER_object_whole(self)'],
+                           invariant=['__k0 <= BitArrayT__UNIT_COUNT',
+                                      implies('g_u < __k0', 'self->_storage[g_u] == 0'),
+                                      implies('g_last < __k0', 'self->_storage[g_last] == 0')],
+                           decreases='BitArrayT__UNIT_COUNT - __k0')})},
+        harness_pre=GH),
+]
+
+# ---------------------------------------------------------------------------------------------
+# remaining BitArrayT operations
+def any_unit_nonzero(arr, count, n=32):
+    """quantifier-free 'exists u < count: arr[u] != 0' (the array has at most n units)"""
+    return '(' + ' || '.join('(%d < %s && %s[%d] != 0)' % (u, count, arr, u) for u in range(n)) + ')'
+
+OBIT = bit('other->_storage', 'g_q')
+UNITS += [
+    ba('empty', dict(name='empty', nparams=0), {
+        'BitArrayT__empty': dict(
+            requires=[SELF],
+            assigns=[],
+            ensures=[('C20', '__CPROVER_return_value == !%s' % any_unit_nonzero('self->_storage', 'BitArrayT__UNIT_COUNT'))],
+            loops={0: dict(assigns=['__k0'],
+                           invariant=['__k0 <= BitArrayT__UNIT_COUNT',
+                                      '!' + any_unit_nonzero('self->_storage', '__k0')],
+                           decreases='BitArrayT__UNIT_COUNT - __k0')})}),
+    ba('and_assign', dict(name='operator&=', nparams=1), {
+        'BitArrayT__op_andassign': dict(
+            requires=[SELF, fresh('other'), INQ, PAD0],
+            assigns=['__CPROVER_object_whole(self)'],
+            ensures=[('C20', '%s == (%s & %s)' % (B(), OLDB, OBIT)),
+                     ('C20', PAD0)],
+            loops={0: dict(assigns=['i', '__CPROVER_object_whole(self)'],
+                           invariant=['i <= BitArrayT__UNIT_COUNT'] +
+                                     ['self->_storage[%s] == (%s < i ? (__CPROVER_loop_entry(self->_storage[%s]) & other->_storage[%s]) : __CPROVER_loop_entry(self->_storage[%s]))' % (g, g, g, g, g) for g in ('g_u', 'g_last')],
+                           decreases='BitArrayT__UNIT_COUNT - i')})},
+        harness_pre=GH),
+    ba('ctor', dict(kind='ctor', name='BitArrayT', nparams=0), {
+        'BitArrayT__ctor0': dict(
+            requires=[SELF, INQ],
+            assigns=['__CPROVER_object_whole(self)'],
+            ensures=[('C20', '%s == 0u' % B()), ('C20', PAD0)]),
+        'BitArrayT__clear__0': dict(
+            requires=[],
+            assigns=['__CPROVER_object_whole(self)'],
+            ensures=['%s == 0u' % B(), PAD0])},
+        calls={'BitArrayT__clear__0': 'contract'}),
+]
+
+# ---------------------------------------------------------------------------------------------
+# StaticArrayT<T, N> / DynamicArrayT<T, N> / IteratorT: element type per witness (uint8_t, TaskLink, Elem8)
+def sa(id_, elem, target, contracts, **kw):
+    u = dict(witness=W, props=['C20', 'C18'],
+             recs={'StaticArrayT': r'ffsm2::detail::StaticArrayT<%s,\d+>$' % elem},
+             consts={'StaticArrayT__NCapacity': ('range', 1, 255)},
+             ghost=['uint8_t g_q;   /* arbitrary element index */'],
+             id='c20.static.%s' % id_, target=dict(cls=r'StaticArrayT<%s,\d+>$' % elem, **target), contracts=contracts)
+    u.update(kw)
+    return u
+
+SQ = 'g_q < StaticArrayT__CAPACITY'
+UNITS += [
+    sa('index_u8', 'unsigned char', dict(name='operator[]', nparams=1, const=False), {
+        'StaticArrayT__op_index__unsigned_char': dict(
+            requires=[SELF, 'index < StaticArrayT__CAPACITY'], assigns=[],
+            ensures=[('C20', '__CPROVER_return_value == &self->_items[index]')])}),
+    sa('index_c_u8', 'unsigned char', dict(name='operator[]', nparams=1, const=True), {
+        'StaticArrayT__op_index_c__unsigned_char': dict(
+            requires=[SELF, 'index < StaticArrayT__CAPACITY'], assigns=[],
+            ensures=[('C20', '__CPROVER_return_value == &self->_items[index]')])}),
+    sa('fill_u8', 'unsigned char', dict(name='fill', nparams=1), {
+        'StaticArrayT__fill': dict(
+            requires=[SELF, SQ], assigns=['__CPROVER_object_whole(self)'],
+            ensures=[('C20', 'self->_items[g_q] == filler')],
+            loops={0: dict(assigns=['__k0', '__CPROVER_object_whole(self)'],
+                           invariant=['__k0 <= StaticArrayT__CAPACITY', implies('g_q < __k0', 'self->_items[g_q] == filler')],
+                           decreases='StaticArrayT__CAPACITY - __k0')})}),
+    sa('clear_u8', 'unsigned char', dict(name='clear', nparams=0), {
+        'StaticArrayT__clear': dict(
+            requires=[SELF, SQ], assigns=['__CPROVER_object_whole(self)'],
+            ensures=[('C20', 'self->_items[g_q] == 255')]),
+        'StaticArrayT__fill': dict(requires=[], assigns=['__CPROVER_object_whole(self)'], ensures=['self->_items[g_q] == filler'])},
+        calls={'StaticArrayT__fill': 'contract'}),
+    sa('count_u8', 'unsigned char', dict(name='count', nparams=0), {
+        'StaticArrayT__count': dict(requires=[SELF], assigns=[], ensures=[('C20', '__CPROVER_return_value == StaticArrayT__CAPACITY')])}),
 ]
